@@ -337,3 +337,121 @@ Proof.
   apply (g_clear_pairs_all _ _ _ _ Hc (s, m)) in Hp. apply filter_In in Hp. destruct Hp as [_ Hp].
   simpl in Hp. apply negb_true_iff in Hp. apply mem_ustr_false in Hp. contradiction.
 Qed.
+
+(* ---------------------------------------------------------------- *)
+(* is_marked with several markings, and with none                    *)
+
+Definition hits (c : cfg) (o : sobj) (sels : list ustring) (i d : bool) : list gm :=
+  flat_map (fun g => flat_map (fun us => flat_map (fun ms => if sel_match c i d us ms then [g] else []) (g_sels g)) sels)
+           (gms_list o).
+
+Lemma in_hits : forall c o sels i d g,
+  In g (hits c o sels i d) <->
+  In g (gms_list o) /\ exists us a, In us sels /\ In a (g_sels g) /\ sel_match c i d us a = true.
+Proof.
+  intros c o sels i d g. unfold hits. rewrite in_flat_map. split.
+  - intros [g0 [Hg0 H]]. apply in_flat_map in H. destruct H as [us [Hus H]].
+    apply in_flat_map in H. destruct H as [a [Ha H]].
+    destruct (sel_match c i d us a) eqn:Em; [|destruct H]. destruct H as [E|[]]. subst g0.
+    split; auto. exists us, a. auto.
+  - intros [Hg [us [a [Hus [Ha Hm]]]]]. exists g. split; auto. apply in_flat_map. exists us. split; auto.
+    apply in_flat_map. exists a. split; auto. rewrite Hm. left. reflexivity.
+Qed.
+
+Lemma g_is_marked_unfold : forall c o ms sels i d b,
+  g_is_marked c o ms sels i d = Ok b ->
+  b = match ms with
+      | [] => match hits c o sels i d with [] => false | _ => true end
+      | _ => forallb (fun m => mem_ustr m
+               (flat_map (fun g => (if mem_ustr (g_ref g) ms then [g_ref g] else []) ++
+                                   (if mem_ustr (g_lang g) ms then [g_lang g] else [])) (hits c o sels i d))) ms
+      end.
+Proof.
+  intros c o ms sels i d b H. unfold g_is_marked in H.
+  destruct (validate c (view o) sels); [|discriminate]. cbn [negb] in H.
+  destruct ms; injection H as H; subst b; reflexivity.
+Qed.
+
+(* granular is_marked with a list of markings: ALL of them must be reported (the docstring says ANY) *)
+Theorem g_is_marked_many : forall c o ms sels i d b res,
+  ms <> [] -> (forall m, In m ms -> nonempty m = true) ->
+  g_is_marked c o ms sels i d = Ok b ->
+  g_get_markings c o sels i d true true = Ok res ->
+  (b = true <-> forall m, In m ms -> In m res).
+Proof.
+  intros c o ms sels i d b res Hne Hn Hb Hr. apply g_is_marked_unfold in Hb.
+  destruct ms as [|m0 ms0]; [congruence|]. subst b. rewrite forallb_forall.
+  assert (Hequiv : forall m, In m (m0 :: ms0) ->
+            (mem_ustr m (flat_map (fun g => (if mem_ustr (g_ref g) (m0 :: ms0) then [g_ref g] else []) ++
+                                            (if mem_ustr (g_lang g) (m0 :: ms0) then [g_lang g] else []))
+                                  (hits c o sels i d)) = true <-> In m res)).
+  { intros m Hm. rewrite mem_ustr_in. rewrite (g_get_spec _ _ _ _ _ _ _ _ m Hr). rewrite in_flat_map. split.
+    - intros [g [Hh Hf]]. apply in_hits in Hh. destruct Hh as [Hg [us [a [Hus [Ha Hmt]]]]].
+      exists g, us, a. repeat (split; auto). pose proof (Hn m Hm) as Hnm.
+      apply in_app_or in Hf. destruct Hf as [Hf|Hf].
+      + destruct (mem_ustr (g_ref g) (m0 :: ms0)); [|destruct Hf]. destruct Hf as [Hf|[]]. left. auto.
+      + destruct (mem_ustr (g_lang g) (m0 :: ms0)); [|destruct Hf]. destruct Hf as [Hf|[]]. right. auto.
+    - intros [g [us [a [Hg [Hus [Ha [Hmt Hid]]]]]]]. exists g. split.
+      + apply in_hits. split; auto. exists us, a. auto.
+      + apply in_or_app. destruct Hid as [[E _]|[E _]]; subst m.
+        * left. apply mem_ustr_in in Hm. rewrite Hm. left. reflexivity.
+        * right. apply mem_ustr_in in Hm. rewrite Hm. left. reflexivity. }
+  split.
+  - intros H m Hm. apply Hequiv; auto.
+  - intros H m Hm. apply Hequiv; auto.
+Qed.
+
+(* object-level is_marked with a list of markings: ANY of them *)
+Theorem o_is_marked_many : forall o ms, ms <> [] ->
+  (o_is_marked o ms = true <-> exists m, In m ms /\ In m (omr_list o)).
+Proof.
+  intros o ms Hne. unfold o_is_marked. destruct ms as [|m0 ms0]; [congruence|].
+  rewrite existsb_exists. split.
+  - intros [m [H1 H2]]. exists m. split; auto. apply mem_ustr_in. exact H2.
+  - intros [m [H1 H2]]. exists m. split; auto. apply mem_ustr_in. exact H2.
+Qed.
+
+(* every granular marking carries an identifier (true of every constructed object and of every mutator result) *)
+Definition labelled (gs : list gm) : Prop := forall g, In g gs -> nonempty (g_ref g) = true \/ nonempty (g_lang g) = true.
+
+(* is_marked without a marking: "is there any marking" = get_markings reports something *)
+Theorem g_is_marked_none : forall c o sels i d b res,
+  labelled (gms_list o) ->
+  g_is_marked c o [] sels i d = Ok b ->
+  g_get_markings c o sels i d true true = Ok res ->
+  (b = true <-> res <> []).
+Proof.
+  intros c o sels i d b res Hl Hb Hr. apply g_is_marked_unfold in Hb. subst b. split.
+  - intro H. destruct (hits c o sels i d) as [|g hs] eqn:Eh; [discriminate|].
+    assert (Hin : In g (hits c o sels i d)) by (rewrite Eh; left; reflexivity).
+    apply in_hits in Hin. destruct Hin as [Hg [us [a [Hus [Ha Hm]]]]].
+    destruct (Hl g Hg) as [Hn|Hn].
+    + assert (In (g_ref g) res).
+      { apply (g_get_spec _ _ _ _ _ _ _ _ (g_ref g) Hr). exists g, us, a. repeat (split; auto). }
+      intro E. rewrite E in H0. destruct H0.
+    + assert (In (g_lang g) res).
+      { apply (g_get_spec _ _ _ _ _ _ _ _ (g_lang g) Hr). exists g, us, a. repeat (split; auto). }
+      intro E. rewrite E in H0. destruct H0.
+  - intro H. destruct res as [|m res]; [congruence|].
+    assert (Hin : In m (m :: res)) by (left; reflexivity).
+    apply (g_get_spec _ _ _ _ _ _ _ _ m Hr) in Hin. destruct Hin as [g [us [a [Hg [Hus [Ha [Hm _]]]]]]].
+    assert (Hh : In g (hits c o sels i d)) by (apply in_hits; split; auto; exists us, a; auto).
+    destruct (hits c o sels i d); [destruct Hh | reflexivity].
+Qed.
+
+Lemma compress_labelled : forall gs, labelled (olist (compress_markings gs)).
+Proof.
+  intros gs g Hg. destruct gs as [|g0 gs]; [contradiction|]. unfold compress_markings, olist in Hg.
+  apply in_map_iff in Hg. destruct Hg as [[k ss] [E Hin]]. subst g.
+  assert (Hk : keys_nonempty (fold_left compress_step (g0 :: gs) [])) by (apply keys_fold; intros k0 ss0 []).
+  pose proof (Hk k ss Hin) as Hn. unfold compress_entry. simpl. destruct (is_marking k); simpl; auto.
+Qed.
+
+(* the dispatch on `selectors is None` *)
+Theorem dispatch : forall c o m ss r l i d,
+  add_markings c o m (Some ss) = g_add_markings c o m ss /\ add_markings c o m None = o_add_markings c o m /\
+  remove_markings c o m (Some ss) = g_remove_markings c o m ss /\ remove_markings c o m None = o_remove_markings c o m /\
+  clear_markings c o (Some ss) r l = g_clear_markings c o ss r l /\ clear_markings c o None r l = o_clear_markings c o /\
+  set_markings c o m (Some ss) r l = g_set_markings c o m ss r l /\ set_markings c o m None r l = o_set_markings c o m /\
+  get_markings c o None i d r l = Ok (omr_list o) /\ is_marked c o m None i d = Ok (o_is_marked o m).
+Proof. intros. repeat split. Qed.
